@@ -151,6 +151,9 @@ func cmdRun(args []string) int {
 	for _, u := range ws.Report.Unwoven {
 		fmt.Printf("simcheck: warning: seam not owned by the simulator: %s\n", u)
 	}
+	for _, u := range ws.Report.Warnings {
+		fmt.Printf("simcheck: warning: %s\n", u)
+	}
 
 	replayDir := filepath.Join(verifDir(), "replays")
 	os.MkdirAll(replayDir, 0755)
@@ -414,6 +417,9 @@ func vacuous(prop string, m *workerResult) string {
 	}
 	if nontriv < 20 {
 		return fmt.Sprintf("only %d distinct non-trivial scenario signatures", nontriv)
+	}
+	if n := m.Stats["order.unregistered-pointer-key"]; n > 0 {
+		return fmt.Sprintf("%d map-iteration events had pointer keys without a canonical rank (the schedule would depend on addresses)", n)
 	}
 	for _, k := range requiredProbes[prop] {
 		if m.Stats[k] == 0 {
